@@ -12,6 +12,7 @@ from concurrent.futures import ThreadPoolExecutor
 
 VERIF = os.path.dirname(os.path.dirname(os.path.abspath(__file__)))
 REPO = os.environ.get("VERIF_REPO", "/repo")
+OUT = os.environ.get("VERIF_OUT", "")   # mutant sweeps redirect evidence / replays away from the committed ones
 SPEC = os.path.join(VERIF, "spec")
 HARNESS = os.path.join(VERIF, "harness")
 BUILD = os.path.join(VERIF, ".build")
@@ -279,9 +280,9 @@ class Verdict:
             return True
         self.sigs[signature] = 1
         if len(self.viol) < 25:
-            os.makedirs(os.path.join(VERIF, "replays"), exist_ok=True)
+            os.makedirs(os.path.join(OUT or VERIF, "replays"), exist_ok=True)
             h = hashlib.sha1((signature + json.dumps(replay_obj, sort_keys=True)).encode()).hexdigest()[:10]
-            path = os.path.join(VERIF, "replays", "%s-%s.json" % (self.prop, h))
+            path = os.path.join(OUT or VERIF, "replays", "%s-%s.json" % (self.prop, h))
             with open(path, "w") as f:
                 json.dump(dict(property=self.prop, signature=signature, detail=detail, case=replay_obj), f, indent=1)
             self.viol.append((signature, path, detail))
@@ -296,13 +297,14 @@ class Verdict:
 
 
 def write_evidence(prop, tier, seed, coverage, wall, violations, assumptions):
-    os.makedirs(os.path.join(VERIF, "evidence"), exist_ok=True)
+    edir = os.path.join(OUT or VERIF, "evidence")
+    os.makedirs(edir, exist_ok=True)
     ev = dict(property_id=prop, tier=tier, seed=int(seed), level="model_checking", coverage=coverage,
               assumptions=assumptions, wall_s=round(wall, 2), violations=int(violations))
-    tmp = os.path.join(VERIF, "evidence", ".%s.%d.tmp" % (prop, os.getpid()))
+    tmp = os.path.join(edir, ".%s.%d.tmp" % (prop, os.getpid()))
     with open(tmp, "w") as f:
         json.dump(ev, f, indent=1)
-    os.replace(tmp, os.path.join(VERIF, "evidence", prop + ".json"))
+    os.replace(tmp, os.path.join(edir, prop + ".json"))
 
 
 class Ctx:
@@ -312,3 +314,43 @@ class Ctx:
 
     def wall(self):
         return time.time() - self.t0
+
+
+def impl_conformance(ctx, module, cfg_text, scenarios, fields, tag):
+    """Hook-level conformance (nondeterministic trace validation): the merged log of test actions
+    and internal events of every scenario must be a behaviour of the implementation-shaped model.
+    The trace spec <module> consumes lines with event actions and silent steps; it is accepted when
+    its invariant NotDone is violated (every line consumed), else the high-water mark names the
+    stuck line. Rejected scenarios are removed and the rest re-validated (at most 6 rounds).
+    A rejection is model drift: reported in the evidence, never a verdict."""
+    drift, todo, states = [], list(scenarios), 0
+    for rnd in range(6):
+        if not todo:
+            break
+        tl, starts = [], []
+        blank = dict((f, d) for f, d in fields)
+        for l in todo:
+            starts.append(len(tl) + 1)
+            tl.append(dict(blank, ev="reset"))
+            for e in l["events"]:
+                row = dict(blank)
+                row.update((k, e[k]) for k in blank if k in e)
+                tl.append(row)
+        d = ctx.scratch.specdir("conf-%s-%d" % (tag, rnd))
+        write_ndjson(os.path.join(d, "trace.ndjson"), tl)
+        with open(os.path.join(d, "conf.cfg"), "w") as f:
+            f.write(cfg_text)
+        r = run_tlc(d, module, "conf.cfg", workers=1, heap_mb=3000, timeout=900)
+        states += r["distinct"]
+        if r["violated"] == "NotDone":
+            todo = []
+            break
+        m = re.search(r'"HIGHWATER",\s*(\d+)', r["out"])
+        if r["error"] or not m:
+            return dict(status="inconclusive", detail=(r["error"] or r["out"][-300:])[:300], scenarios=len(scenarios))
+        hw = int(m.group(1))
+        k = max(i for i, s0 in enumerate(starts) if s0 <= max(hw, 1))
+        drift.append(dict(case=todo[k].get("case"), stuck_at=tl[hw - 1] if 0 < hw <= len(tl) else None, stuck_index=hw - starts[k],
+                          events=[e["ev"] + "".join(":" + str(e[f]) for f, _ in fields if f != "ev" and e.get(f) not in ("", None, False, 0)) for e in todo[k]["events"]]))
+        todo = todo[:k] + todo[k + 1:]
+    return dict(status="conforms" if not drift else "drift", scenarios=len(scenarios), tlc_states=states, drift=drift[:5])
